@@ -134,6 +134,7 @@ DriftOf(V, chunks, run) ==
       ELSE IF {SxKey(M.sx[j], M.sx[j].o) : j \in DOMAIN M.sx}
                  # {SxKey(R.sx[j], TokenStart(V, R.sx[j])) : j \in DOMAIN R.sx} THEN <<"sx", ToString(M.sx)>>
       ELSE IF M.nprox # R.nprox THEN <<"proxies", ToString(M.nprox)>>
+      ELSE IF Range(M.esa) # Range(R.esa) THEN <<"esa", ToString(M.esa)>>
       ELSE IF {CanonProc(M.cfi[j]) : j \in DOMAIN M.cfi} # {CanonProc(R.cfi[j]) : j \in DOMAIN R.cfi}
            THEN <<"cfi", ToString(M.cfi)>>
       ELSE <<>>
@@ -175,7 +176,8 @@ KfTags(X, clause) ==
 (* Clauses  <<name, in-domain, holds>>                                     *)
 (***************************************************************************)
 Clauses(X) ==
-  LET dom == InDomain(X.Vw) /\ InDomain(X.Vc)
+  LET \* symbol-attribute directives are an ELF feature (on PE LLVM reports them as unsupported)
+      dom == InDomain(X.Vw) /\ InDomain(X.Vc) /\ (AttrIdx(X.Vw) # {} => X.t.fmt = "elf")
       ok == dom /\ SomeOk(X)
   IN  << <<"C12_Completes", dom, Completes(X.Vw)>>,
          <<"C12_TargetsNoOffset", dom /\ HasTargetOffset(X.Vw), C12_TargetsNoOffset(X.Vw) /\ C12_TargetsNoOffset(X.Vc)>>,
@@ -190,6 +192,7 @@ Clauses(X) ==
          <<"C12_Alignment", ok, AllRuns(X, LAMBDA V, r : C12_Alignment(V))>>,
          <<"C12_Strings", ok, AllRuns(X, LAMBDA V, r : C12_Strings(V))>>,
          <<"C13_Assignments", ok, AllRuns(X, LAMBDA V, r : C13_Assignments(V))>>,
+         <<"C13_SymAttrs", ok, AllRuns(X, LAMBDA V, r : C13_SymAttrs(V))>>,
          <<"C13_TempSuffix", ok, AllRuns(X, LAMBDA V, r : C13_TempSuffix(V))>>,
          <<"C13_Binding", ok, AllRuns(X, LAMBDA V, r : C13_Binding(V))>>,
          <<"C13_MultipleDefinitions", dom, C13_MultipleDefinitions(X.Vw) /\ C13_MultipleDefinitions(X.Vc)>>,
